@@ -55,6 +55,8 @@ def make_source(mode, uid, mask_kind):
         undefined = np.zeros((256, 256), dtype=bool)
     elif mask_kind == 1:
         undefined = (xx // 16) % 3 == 0
+    elif mask_kind == 3 and mode in (ImageMode.F32, ImageMode.F64, ImageMode.RGBA):
+        undefined = np.ones((256, 256), dtype=bool)     # an update that contributes nothing (entirely undefined source)
     else:
         undefined = (yy + xx) % 5 == 0
     if mode in (ImageMode.F32, ImageMode.F64):
@@ -112,7 +114,7 @@ def run_one(ch, env):
             x0 = ch.draw(256 - w + 1, kind="x0")
             iy0 = ch.draw(256 - h + 1, kind="iy0")
             ix0 = ch.draw(256 - w + 1, kind="ix0")
-            mk = ch.draw(3, kind="mask")
+            mk = ch.draw(4, kind="mask")
             ny = ch.draw(3, kind="cs_yields")
             ops.append({"uid": uid, "pos": pi, "rect": (y0, h, x0, w), "src": (iy0, ix0), "mask": mk, "yields": ny})
         plans.append(ops)
